@@ -211,15 +211,19 @@ BUNDLES = {
     'sessions': 'exclusive session slots (C14: R-CAS, R-TOK)',
     'value_words': 'immutable values swapped with one store (C15: R-IMM, R-ONE)',
     'reclamation': 'who may free, unlink implies retire (C07: R-WMF, R-RET)',
+    'structure': 'structural stores under the guarding lock, link / parent pairing, split sibling published last (C08: R-MUL, R-LINK; C06: R-SPL)',
+    'writers_revalidate': 'writers act on what they re-validated under the lock (C01: R-WUL)',
+    'names': 'name-based entry points resolve the storage first (C13: R-STG)',
 }
 SHARED = {
-    'C01': ['version_word', 'permutation_word', 'key_order', 'value_words'],
+    'C01': ['version_word', 'permutation_word', 'key_order', 'value_words', 'names'],
     'C03': ['key_order'],
-    'C04': ['version_word', 'permutation_word', 'descent', 'writers_dirty'],
+    'C04': ['version_word', 'permutation_word', 'descent', 'writers_dirty', 'structure', 'names'],
     'C05': ['version_word', 'descent', 'writers_dirty'],
     'C06': ['version_word', 'descent'],
     'C07': ['sessions'],
-    'C10': ['version_word', 'permutation_word', 'descent', 'key_order'],
+    'C10': ['version_word', 'permutation_word', 'descent', 'key_order', 'structure'],
+    'C13': ['writers_revalidate'],
     'C11': ['reclamation'],
 }
 
